@@ -285,6 +285,24 @@ def build(sc):
     return W
 
 
+def _trace_home():
+    """Environment._export_trace writes ~/Downloads/<name>_trace.json: give every worker process its own scratch home"""
+    import os
+    h = os.path.join(common.VERIF, 'work', 'home', str(os.getpid()))
+    os.makedirs(os.path.join(h, 'Downloads'), exist_ok=True)
+    os.environ['HOME'] = h
+    return h
+
+
+def _read_trace_file(env):
+    import json, os
+    try:
+        with open(os.path.expanduser('~/Downloads/%s_trace.json' % env.name)) as fp:
+            return len(json.load(fp))
+    except (OSError, ValueError):
+        return -1
+
+
 def run_uop(W, o):
     k = o[0]
     if k == 'shutdown':
@@ -491,6 +509,7 @@ def run_impl(sc, weights='patch', split=False, reduced=False):
     from simprocesd.model import resource_manager as rmmod
     from simprocesd.model.factory_floor import maintainer as mmod
     flat, obs = [-778, 1], []      # the model reports whether the initial world is well-formed (coq/Model/FamFloor.v wf_worldb)
+    _trace_home()
     with common.WeightPatch(sc['seed'], sc['mod'], mode=weights):
         orig_rr_init = rmmod.ReservedResources.__init__
         orig_wo_init = mmod._WorkOrder.__init__
@@ -534,6 +553,7 @@ def run_impl(sc, weights='patch', split=False, reduced=False):
             orig_step = env.step
 
             W.fired = []
+            W.popped = []
 
             def counted_step():
                 steps[0] += 1
@@ -541,6 +561,8 @@ def run_impl(sc, weights='patch', split=False, reduced=False):
                     raise TooLong()
                 if env._events and not env._events[0].cancelled:
                     W.fired.append(act_code(W, env._events[0]))      # the event about to be executed
+                if env._events and env._trace:
+                    W.popped.append((env._events[0].time, env._events[0].asset_id))   # what an enabled event trace has to list
                 orig_step()
             env.step = counted_step
             orig_add = env.add_datapoint
@@ -573,10 +595,11 @@ def run_impl(sc, weights='patch', split=False, reduced=False):
                             env.step()
                         elif k == 'run':
                             if split and x[1] >= 2:
-                                env.run((x[1] // 2) / TICK)
-                                env.run((x[1] - x[1] // 2) / TICK)
+                                env.run((x[1] // 2) / TICK, trace=True)
+                                env.run((x[1] - x[1] // 2) / TICK, trace=True)
                             else:
-                                env.run(x[1] / TICK)
+                                env.run(x[1] / TICK, trace=True)       # the event trace is on from the first run (C15)
+                            W.exported = _read_trace_file(env)
                         elif k == 'at':
                             env.schedule_event(x[1] / TICK, -5, make_user(x[2]), x[3] / PRIO)
                         elif k == 'now':
@@ -666,6 +689,10 @@ def observe(W, x, st, devs, pools, new):
     o['queue'] = [[to_ticks(ev.time), ev.asset_id - W.base if ev.asset_id > 0 else ev.asset_id] + act_code(W, ev) + [bool(ev.cancelled)]
                   for ev in env._events]
     o['paused'] = [[to_ticks(ev.time), ev.asset_id - W.base if ev.asset_id > 0 else ev.asset_id] + act_code(W, ev) for ev in env._paused_events]
+    tr = env._event_trace
+    o['trace'] = dict(keys_ok=(list(tr.keys()) == list(range(len(tr)))), n=len(tr), popped=len(W.popped),
+                      same=([(v['time'], v['asset_id']) for v in tr.values()] == list(W.popped)),
+                      exported=getattr(W, 'exported', None))
     o['uops'] = list(W.uoplog)
     del W.uoplog[:]
     o['fired'] = list(W.fired)
